@@ -388,6 +388,7 @@ LEXER = {
         ensures="""
         tiled(tokens@, old(self).reader.text.spec_bytes(), old(self).reader.valid_range.start_offset as int,
               old(self).reader.valid_range.start_offset + old(self).reader.text.spec_bytes().len()) /*@C01.tokenize.tiles-the-text*/,
+        no_soft_kinds(tokens@) /*@C02.lexer.no-soft-keyword-kinds*/,
         rinv(%(R1)s), same_src(%(R0)s, %(R1)s), consumed(%(R1)s) == r_n(%(R1)s)""" % {'R0': R0, 'R1': R1},
         body_first='proof { lemma_rinv(&self.reader); }',
         loops={0: """
@@ -396,6 +397,7 @@ LEXER = {
         tiled(tokens@, self.reader.text.spec_bytes(), self.reader.valid_range.start_offset as int,
               self.reader.valid_range.start_offset + self.reader.current_buffer_byte_pos + self.reader.current_buffer_byte_len),
         self.state != LexerState::Normal ==> consumed(%(RC)s) == r_n(%(RC)s),
+        no_soft_kinds(tokens@), /*@C02.lexer.no-soft-keyword-kinds*/
     ensures
         consumed(%(RC)s) == r_n(%(RC)s) /*@C01.tokenize.covers-to-end-of-text*/,
     decreases r_n(%(RC)s) - consumed(%(RC)s) /*@C02.tokenize.terminates*/
@@ -423,11 +425,12 @@ LEXER = {
         ]),
     'LuaLexer::get_state': lx_fn('get_state', ret='r', ensures='r == self.state'),
     'LuaLexer::support': lx_fn('support'),
-    'LuaLexer::name_to_kind': lx_fn('name_to_kind', ret='r', ensures='real_kind(r) /*@C01.lex.name-kind-is-real*/'),
+    'LuaLexer::name_to_kind': lx_fn('name_to_kind', ret='r', ensures='real_kind(r) /*@C01.lex.name-kind-is-real*/,\n        !soft_kind(r) /*@C02.lexer.no-soft-keyword-kinds*/'),
     'LuaLexer::lex': lx_fn(
         'lex', ret='r', rules=['drop-errors', ('guard-catchall-merge', {'count': 3}), ('match-guard-if-chain', {'count': 4})], attrs='#[verifier::spinoff_prover]',
         requires=PRE,
         ensures="""
+        !soft_kind(r) /*@C02.lexer.no-soft-keyword-kinds*/,
         reset_then_bumped(%(R0)s, %(R1)s) /*@C01.lex.one-reset-then-bumps-only*/,
         %(PROGRESS)s /*@C02.lex.progress*/,
         consumed(%(R0)s) < r_n(%(R0)s) ==> real_kind(r) /*@C01.lex.no-eof-kind-before-end*/,
@@ -462,7 +465,7 @@ LEXER = {
         body_first='proof { lemma_rinv(&self.reader); }', loops={0: lx_loop()}),
     'LuaLexer::lex_number': lx_fn(
         'lex_number', ret='r', rules=['drop-errors', ('guard-catchall-merge', {'count': 4}), ('match-guard-if-chain', {'count': 1})], requires=PRE,
-        ensures='bumped(%s, %s), %s, %s, real_kind(r), %s /*@C02.lex.progress*/' % (R0, R1, SAME_STATE, CFG, PROGRESS),
+        ensures='bumped(%s, %s), %s, %s, real_kind(r), %s /*@C02.lex.progress*/,\n        !soft_kind(r) /*@C02.lexer.no-soft-keyword-kinds*/' % (R0, R1, SAME_STATE, CFG, PROGRESS),
         body_first='proof { lemma_rinv(&self.reader); }', loops={0: lx_loop(STARTED), 1: lx_loop(STARTED)}),
 }
 
@@ -506,6 +509,7 @@ UNIT = {
         'Reader::bump: consumed\' == consumed + 1 iff consumed < chars(text).len(); byte offset pos+len == |utf8(chars[..consumed])|',
         'Reader::is_eof: r <==> consumed == chars(text).len()   (fails on the unrepaired reader: NUL sentinel)',
         'LuaLexer::lex (verbatim 400-line match): exactly one reset_buff then bumps only; >= 1 char consumed and kind not TkEof/None unless at end of text',
+        'LuaLexer::tokenize: no_soft_kinds(tokens) (units/c02_grammar/nosoft_iface.rs): no produced token has kind TkContinue or TkConst (C02: precondition nosoft of parse_chunk in the grammar units); name_to_kind / lex / lex_number ensure !soft_kind(r)',
         'LuaLexer::tokenize: tiled(tokens, text bytes, start, start + text.len()): first starts at start, adjacent, last ends at the end, every token non-empty, on char boundaries, kind != TkEof/None',
     ],
     'mutants': [
@@ -527,6 +531,9 @@ UNIT = {
         {'name': 'tokenize-breaks-before-push', 'item': 'LuaLexer::tokenize',
          'pattern': r'if kind == LuaTokenKind::TkEof \{', 'repl': 'if kind != LuaTokenKind::TkEof {',
          'expect': r'C01\.tokenize\.never-stops-before-end-of-text'},
+        {'name': 'name-to-kind-emits-continue', 'item': 'LuaLexer::name_to_kind',
+         'pattern': r'_ => LuaTokenKind::TkName,', 'repl': '"continue" => LuaTokenKind::TkContinue,\n            _ => LuaTokenKind::TkName,',
+         'expect': r'C02\.lexer\.no-soft-keyword-kinds'},
         {'name': 'lex-arm-forgets-to-bump', 'item': 'LuaLexer::lex',
          'pattern': r"'#' => \{\s*self\.reader\.bump\(\);", 'repl': "'#' => {",
          'expect': r'C02\.lex\.progress'},
